@@ -574,7 +574,10 @@ class NetworkGraph(AbstractBaseIR):
                 rate_val = rates[slot_indices[0]]
 
                 # Build chain input: use source var directly when group covers all its elements
-                if sorted(src_indices) == list(range(n_src_var)):
+                # (a scalar source variable cannot be indexed: every slot of the group reads the variable itself)
+                # (the slots of a group are served in the order of `src_indices`: only the identity order is the plain variable)
+                if src_indices == list(range(n_src_var)) or len(target_shape) < 1 or \
+                        (len(target_shape) == 1 and target_shape[0] == 1):
                     chain_in = var
                 elif G == 1:
                     chain_in = f"index({var}, {src_indices[0]})"
